@@ -17,6 +17,8 @@ A structure is a list of parts (JSON-able):
   ["Xempty", ws]         `{}` / `{ }`
   ["Xlone"]              a lone `{` (only as the last part)
   ["Xnoconv", e]         `!` without a conversion character
+  ["Xbadesc"]            the unrecognised escape \\q in literal text (malformed only in
+                         mode q; the bracket form is raw, there it is plain text)
 
 Two modes: "q" = f"..." (escapes processed), "b" = #[f[...]f] (a bracket
 string: raw).  The Python rendering is f\"\"\"...\"\"\" and rf\"\"\"...\"\"\"
@@ -132,6 +134,8 @@ def part_hy(p):
         return "{" + p[1] + "}"
     if k == "Xlone":
         return "{"
+    if k == "Xbadesc":
+        return "\\q"
     if k == "Xnoconv":
         ex = EXPRS[p[1]]["hy"]
         return "{" + ex + ("" if _ends_delim(ex) else " ") + "!}"
@@ -205,7 +209,7 @@ def pool(name):
     if name == "med":
         return chunks + fields(range(5), ["", "s", "r", "a"], [0, 1, 2], [0, 1, 3, 4], [0])
     if name == "med3":
-        return chunks[:7] + fields([0, 1, 2, 3], ["", "r", "a"], [0, 1, 2], [0, 3, 4], [0])
+        return chunks[:7] + fields([0, 1, 2, 3], ["", "r"], [0, 1, 2], [0, 3, 4], [0])
     if name == "small":
         return chunks[:7] + fields([0, 1, 2], ["", "r"], [0, 1], [0, 3], [0])
     raise ValueError(name)
@@ -226,4 +230,5 @@ def malformed_parts():
     out.append(["Xempty", ""])
     out.append(["Xempty", " "])
     out.append(["Xlone"])
+    out.append(["Xbadesc"])
     return out
